@@ -74,7 +74,7 @@ class EidField(CborField):
             if isinstance(ssp, int):
                 ssp = EidField.WellKnownSsp(ssp).name
 
-            return '{0}:{1}'.format(
+            eid = '{0}:{1}'.format(
                 EidField.TypeCode(scheme_type).name,
                 ssp
             )
@@ -85,13 +85,20 @@ class EidField(CborField):
                     or any(isinstance(seg, bool) or not isinstance(seg, int) for seg in ssp)):
                 # a byte string also iterates as integers
                 raise ValueError('EID ipn SSP is not an array of integers')
-            return '{0}:{1}'.format(
+            eid = '{0}:{1}'.format(
                 EidField.TypeCode(scheme_type).name,
                 '.'.join(map(str, ssp)),
             )
 
         else:
             raise RuntimeError('Unhandled scheme type')
+
+        # only the spelling which i2m() gives back is taken: an item with
+        # surplus array members, "none" as text or a node name without its
+        # slash would leave this node in another form than it arrived
+        if self.i2m(pkt, eid) != list(x):
+            raise ValueError('EID is not in its normal form')
+        return eid
 
     def randval(self):
         nodename = volatile.RandString(50)
